@@ -438,11 +438,42 @@ def make_batch_outputs(kind):
     return fn
 
 
+def make_nonconvergence(only_v):
+    """a recycled step whose Newton iteration does not converge (contract stub: success = False) must be reported to the caller like a fresh
+    power flow reports it (LoadflowNotConverged) - also in the mode that only stores voltages for batch reading"""
+    def fn(ctx):
+        from pandapower.auxiliary import LoadflowNotConverged
+        net0, recycle = _net("load", "p_mw", True)
+        x1 = ctx.var("x_new", 0.1, 5.)
+        pf = ctx.load("pandapower.powerflow")
+        net = copy.deepcopy(net0)
+        _symbolic_state(ctx, net)
+        net.load = net.load.copy()
+        net.load["p_mw"] = net.load["p_mw"].astype(object if ctx.symbolic else float)
+        net.load.at[0, "p_mw"] = x1
+        net._options["only_v_results"] = only_v
+
+        def no_convergence(ppci, options):
+            ppci["success"], ppci["iterations"], ppci["et"] = False, 10, 0.0
+            return ppci
+        raised = None
+        with patched(pf, _run_newton_raphson_pf=no_convergence):
+            try:
+                pf._recycled_powerflow(net, recycle=dict(recycle))
+            except LoadflowNotConverged:
+                raised = "LoadflowNotConverged"
+        ctx.true("non_convergence_is_reported_to_the_time_series", raised == "LoadflowNotConverged")
+    return fn
+
+
 def instances(tier):
     out = []
     for tl in ("current", "power"):
         out.append(Inst(f"batch_values_{tl}", make_batch(tl), nvars=60, samples=2, max_paths=3000,
                         meta=dict(part="B", trafo_loading=tl), raises=(UserWarning,)))
+    for ov in (True, False):
+        out.append(Inst(f"recycled_non_convergence_only_v_results_{int(ov)}", make_nonconvergence(ov), nvars=10, samples=2, raises=(UserWarning,),
+                        meta=dict(part="A", scenario="Newton does not converge in a recycled step", only_v_results=ov)))
     for kind in ("lines_only", "trafo_only"):
         out.append(Inst(f"batch_outputs_{kind}", make_batch_outputs(kind), nvars=30, samples=2, meta=dict(part="B", net=kind), raises=(UserWarning,)))
     for kind in ("all_supplied", "unsupplied", "bus_out_of_service"):
